@@ -572,12 +572,46 @@ class C16:
     def gen(rng, tier, i):
         # (zero-filled payload is NOT generated here: the quantifier - 'damage sets as in C04' - excludes damage to
         # regions whose described bytes are all zero, where 'absent' and 'present' cannot be told apart by hash)
-        return gen_case(rng, tier, damaged=rng.random() > 0.15)
+        case = gen_case(rng, tier, damaged=rng.random() > 0.15)
+        tree = case["tree"]
+        if rng.random() < 0.06 and not tree["single"] and len(tree["files"]) <= 40 and case["pl_exp"] <= 17 \
+                and not tree.get("links"):
+            # sparse image: one file holds an island of zero bytes covering at least one whole piece, with ordinary
+            # bytes before and after it.  The file is removed or cut off before the island - a region whose described
+            # bytes are NOT all zero, so inside the quantifier - and the absent island, read as zeros, still hashes to
+            # the recorded values: those pieces count
+            pl = 2 ** case["pl_exp"]
+            i = rng.randrange(len(tree["files"]))
+            head = rng.choice([0, 1, pl, pl + 77, 2 * pl])
+            island = rng.choice([2, 3, 4]) * pl + rng.choice([0, 0, 500])
+            tail = rng.choice([pl + 1, 2 * pl, 3 * pl + 9, 40])
+            ztail = rng.random() < 0.3
+            if ztail:
+                # the island runs to the end of the file (image with an unused tail, final piece short): the file as a
+                # whole is not all zero, it is removed or cut off inside its ordinary head
+                head, tail = rng.choice([1, pl, pl + 77, 2 * pl]), 0
+                island = rng.choice([1, 2, 3]) * pl + rng.choice([1, 500, 16384, 16385, pl // 2, pl - 1])
+            tree["files"][i][1] = head + island + tail
+            tree["files"][i][2] = "zmid:%d:%d:%d" % (rng.randrange(1 << 30), head, head + island)
+            tree["layout"] += "+zero-island"
+            case["damage"] = [d for d in case["damage"] if d["file"] != i]
+            if ztail:
+                case["damage"].append(rng.choice([{"file": i, "kind": "remove"},
+                                                  {"file": i, "kind": "trunc", "to": rng.choice([0, head - 1, head // 2])}]))
+            elif rng.random() < 0.6:
+                # (every cut removes the ordinary bytes after the island, whether it lies before, inside or at the end of it)
+                case["damage"].append({"file": i, "kind": "trunc", "to": max(0, rng.choice(
+                    [0, 1, head - 1, head, head // 2, head + 1, head + island // 2, head + pl, head + island - 1, head + island]))})
+            else:
+                case["damage"].append({"file": i, "kind": "remove"})
+        return case
 
     @staticmethod
     def run(case, scratch):
         obs = observe(case, scratch)
         viol, counters = [], {}
+        if "+zero-island" in case["tree"]["layout"]:
+            counters["absent_all_zero_pieces_cases"] = 1
         if obs["create_error"]:
             return {"inconclusive": "metafile creation failed: " + obs["create_error"]["exc"],
                     "traceback": obs["create_error"]["tb"]}
